@@ -92,6 +92,9 @@ def choose_classes(ctx, classes, per_shape):
         ctx.rng.shuffle(lst)
         ints = [c for c in lst if c["types"] == "ints" and not c["fragile"]]
         rest = [c for c in lst if c["types"] != "ints" and not c["fragile"]]
+        refs = [c for c in rest if c["types"] == "refs"]
+        if refs and (per_shape >= 3 or ctx.rng.random() < 0.5):    # thorough: always a refs class; quick: every other shape
+            rest = refs[:1] + [c for c in rest if c is not refs[0]]
         pick = ints[:1] + rest[:max(0, per_shape - 1)]
         chosen[sk] = pick
     if per_shape is not None:
@@ -106,7 +109,7 @@ def choose_classes(ctx, classes, per_shape):
                     if c not in chosen[sk]:
                         chosen[sk].append(c)
     # in-package mocks of interfaces with unexported / initialism-like / case-twin method names
-    n_in = None if per_shape is None else (8 if per_shape >= 3 else 2)
+    n_in = None if per_shape is None else (12 if per_shape >= 3 else 2)
     for mn in sorted({c["mnames"] for c in inpkg}):
         lst = sorted([c for c in inpkg if c["mnames"] == mn], key=lambda c: (shape_key(c["shape"]), c["names"], c["types"]))
         ctx.rng.shuffle(lst)
@@ -401,6 +404,37 @@ def run_driver(ctx, drv, plan, cases_path, out_path, timeout):
     return traces, summary, None
 
 
+def tlc_bg(ctx, tag, module, cfgtext, files, workers, timeout, coverage, res):
+    """TLC in a background thread with its own scratch copy of the spec (vlib.Ctx.tlc is not re-entrant).
+    res["r"] = TLCResult, or res["timeout"] = True."""
+    import shutil
+    import threading
+
+    def job():
+        d = ctx.scratch / ("tlcbg-" + tag)
+        shutil.copytree(vlib.SPEC, d, ignore=shutil.ignore_patterns("states", "*.out", ".tlacache"))
+        for rel, content in files.items():
+            (d / rel).write_text(content)
+        (d / "run.cfg").write_text(cfgtext)
+        cmd = ["tlc", "-workers", str(workers), "-metadir", str(d / "meta"), "-config", "run.cfg"]
+        if coverage:
+            cmd += ["-coverage", "1"]
+        cmd.append(module + ".tla")
+        env = dict(os.environ)
+        env["JAVA_TOOL_OPTIONS"] = (env.get("JAVA_TOOL_OPTIONS", "") + " -Xss64m").strip()
+        t0 = time.time()
+        try:
+            p = subprocess.run(cmd, cwd=d, env=env, capture_output=True, text=True, timeout=timeout, errors="replace")
+            res["r"] = vlib.TLCResult(module, "run.cfg", p.returncode, p.stdout + p.stderr, time.time() - t0, d)
+        except subprocess.TimeoutExpired:
+            subprocess.run(["pkill", "-f", str(d / "meta")], capture_output=True)
+            res["timeout"] = True
+        shutil.rmtree(d, ignore_errors=True)
+    t = threading.Thread(target=job)
+    t.start()
+    return t
+
+
 def tick(ctx, what):
     now = time.time()
     ctx.cov.setdefault("stage_seconds", {})[what] = round(now - getattr(ctx, "_tick", ctx.t0), 1)
@@ -413,17 +447,17 @@ def run(ctx):
     thorough = ctx.thorough()
     base = "MatryerMock_thorough.cfg" if thorough else "MatryerMock_quick.cfg"
     # ------------------------------------------------------------ 1. model checking: code-shaped layer => contract
-    r = ctx.tlc("MatryerMockMC", base, workers=min(8, ctx.workers()), timeout=1500, coverage=thorough)
-    if r.violated:
-        ctx.note("model-level: %s violated on MatryerMock.tla (prediction only; the replay decides)" % r.violated)
-    elif not r.ok:
-        raise MachineryError("TLC failed on MatryerMock:\n" + r.tail())
-    if thorough:
-        z = r.coverage_zero()
-        if z:
-            raise MachineryError("vacuous: spec actions never taken: %s" % z[:5])
-    model_states, model_trans = r.distinct, r.generated
-    tick(ctx, "model_check")
+    # (runs in the background while the histories are exported and replayed; joined before the verdict)
+    mc_res = {}
+    mc_thread = tlc_bg(ctx, "modelcheck", "MatryerMockMC", (vlib.SPEC / "cfg" / base).read_text(), {}, min(6, ctx.workers()), 2400,
+                       thorough, mc_res)
+    r = ctx.tlc("MatryerMockMC", "MatryerMock_classes.cfg", workers=1, timeout=600, count=False,
+                files={"cfg/MatryerMock_classes.cfg": (vlib.SPEC / "cfg" / base).read_text()
+                       .replace("MaxHist = 5", "MaxHist = 0").replace("MaxHist = 6", "MaxHist = 0")
+                       .replace("ShallowHist = 5", "ShallowHist = 0").replace("ShallowHist = 6", "ShallowHist = 0")})
+    if not r.ok:
+        raise MachineryError("TLC failed to print the class table:\n" + r.tail())
+    tick(ctx, "class_table")
 
     # ------------------------------------------------------------ class table from TLC
     tabs = r.prints("CLASSES")
@@ -449,6 +483,26 @@ def run(ctx):
             chosen = {shape_key(only[0]["shape"]): only}
         else:
             only = None
+    all_shapes = list(shapes)
+    deep = [s for _, s in shapes]
+    if only:
+        deep = [only[0]["shape"]]
+    else:
+        # every shape exhaustively to depth ShallowHist (quick 3, thorough 4); a seed-rotated subset to MaxHist (5 / 6).
+        # The model check itself (step 1) always covers every shape to MaxHist.
+        var_ = [s for s in deep if s["var"] and s["ar"] >= 2 and s["nres"] >= 1]
+        fix_ = [s for s in deep if not s["var"] and s["ar"] >= 2 and s["nres"] >= 1]
+        rest = [s for s in deep if s not in var_ and s not in fix_]
+        ctx.rng.shuffle(var_), ctx.rng.shuffle(fix_), ctx.rng.shuffle(rest)
+        deep = (var_[:4] + fix_[:5] + rest[:3]) if thorough else [var_[0], fix_[0]]
+    mc = mc_module("MatryerMockRun", deep)
+    chunks = ["Opts00", "Opts01", "Opts10", "Opts11"]
+    exports = []
+    for ci, opts in enumerate(chunks):      # the exports run in the background while the mocks are generated and built
+        res = {}
+        th = tlc_bg(ctx, "export%d" % ci, "MatryerMockRun", export_cfg(base, opts, 4 if thorough else 3, False, bool(only)),
+                    {"MatryerMockRun.tla": mc}, 1, 2400, False, res)
+        exports.append((th, res))
     t_gen = time.time()
     w, live, skipped, drv = build_world(ctx, chosen)
     t_gen = time.time() - t_gen
@@ -485,15 +539,6 @@ def run(ctx):
             plan_pkgs["%s/%s" % ("true" if stub else "false", "true" if d[1] == "1" else "false")].append(pp)
 
     # ------------------------------------------------------------ 2b. export histories, replay them on the mocks
-    deep = [s for _, s in shapes]
-    if only:
-        deep = [only[0]["shape"]]
-    elif not thorough:
-        # every shape exhaustively to depth ShallowHist; a seed-rotated subset to MaxHist
-        var_ = [s for s in deep if s["var"] and s["ar"] >= 2 and s["nres"] >= 1]
-        fix_ = [s for s in deep if not s["var"] and s["ar"] >= 2 and s["nres"] >= 1]
-        deep = [ctx.rng.choice(var_), ctx.rng.choice(fix_)]
-    mc = mc_module("MatryerMockRun", deep)
     stats = {"len": {}, "sample": []}
     d = ctx.mkdir("replay")
     totals = {"cases": 0, "replays": 0, "matched": 0, "mismatched": 0, "steps": 0, "mismatch_distinct": 0, "mismatch_kept": 0}
@@ -501,11 +546,11 @@ def run(ctx):
     all_traces = []
     hang = None
     n_sample_target = 6000 if thorough else 1500
-    chunks = ["Opts00", "Opts01", "Opts10", "Opts11"] if thorough else ["MCOpts"]
     for ci, opts in enumerate(chunks):
-        cfgtxt = export_cfg(base, opts, 3, thorough, bool(only))
-        ex = ctx.tlc("MatryerMockRun", "MatryerMock_export.cfg", workers=1, timeout=2400, count=False,
-                     files={"MatryerMockRun.tla": mc, "cfg/MatryerMock_export.cfg": cfgtxt})
+        exports[ci][0].join()
+        if exports[ci][1].get("timeout") or "r" not in exports[ci][1]:
+            raise MachineryError("TLC export run timed out")
+        ex = exports[ci][1].pop("r")
         if not ex.ok:
             raise MachineryError("TLC export run failed:\n" + ex.tail())
         tick(ctx, "tlc_export_%d" % ci)
@@ -513,7 +558,7 @@ def run(ctx):
         n = export_cases(ctx, ex.text, cases_path, stats)
         tick(ctx, "write_cases_%d" % ci)
         ex.text = ""
-        if n < (100 if only else 1000):
+        if n < (25 if only else 250):
             raise MachineryError("too few exported histories (%d): vacuous" % n)
         fan = sum(len(v) for v in plan_classes.values()) / 28.0 * 1.2
         every = max(1, int(n * fan / (n_sample_target / len(chunks))))
@@ -522,6 +567,10 @@ def run(ctx):
                 "class_refpos": {cid: c["refpos"] for cid, c in live.items()}, "light_pkgs": ["o%d" % k for k, skip, _, _ in OPT_PKGS if skip] + multi_pkgs, "light_max_ops": 2,
                 "sparse_pkgs": multi_pkgs, "workers": ctx.workers(), "hang_seconds": 30}
         traces, summary, hang = run_driver(ctx, drv, plan, cases_path, d / ("out%d.ndjson" % ci), 3000)
+        for t in traces:                       # replay ids are per driver run: make them unique across chunks
+            t["replay"] += (ci + 1) * 10 ** 8
+            for e in t["events"]:
+                e["case"] = t["replay"]
         all_traces += traces
         tick(ctx, "replay_%d" % ci)
         if hang:
@@ -542,7 +591,25 @@ def run(ctx):
         # no replay step made progress for 30 s although every step is a handful of in-memory calls
         ctx.violation({"kind": "hang", "what": "a replayed operation never returned"},
                       {"driver_report": hang, "note": "replay stopped making progress for 30 s; see 'current' for the operations in flight"})
+        mc_thread.join()
         return {"level": "model_checking", "exhaustive": False}
+
+    mc_thread.join()
+    if mc_res.get("timeout") or "r" not in mc_res:
+        raise MachineryError("TLC timed out on the MatryerMock model check")
+    mr = mc_res["r"]
+    ctx.cov["states"] += mr.distinct
+    ctx.cov["transitions"] += mr.generated
+    if mr.violated:
+        ctx.note("model-level: %s violated on MatryerMock.tla (prediction only; the replay decides)" % mr.violated)
+    elif not mr.ok:
+        raise MachineryError("TLC failed on MatryerMock:\n" + mr.tail())
+    if thorough:
+        z = mr.coverage_zero()
+        if z:
+            raise MachineryError("vacuous: spec actions never taken: %s" % z[:5])
+    model_states, model_trans = mr.distinct, mr.generated
+    tick(ctx, "model_check_join")
 
     # vacuity
     for k in GUARDS:
@@ -603,7 +670,7 @@ def run(ctx):
                     "replays_differing_from_model": totals["mismatched"], "classes_generated": len(live),
                     "classes_skipped_not_compiling": len(skipped), "mocks_generated": len(live) * 8 + 16 * len(multi_classes(live)),
                     "generate_and_build_s": round(t_gen, 1),
-                    "deep_shapes": [shape_key(s) for s in deep] if not thorough else "all",
+                    "deep_shapes": [shape_key(s) for s in deep],
                     "situations_in_exported_histories": {k: stats.get(k, 0) for k in list(GUARDS) + ["read_reset_call_reinspect"]}})
     rich = [t for t in matching if live[t["key"].split("/")[1]]["shape"]["ar"] >= 2 and len(t["events"]) >= 4
             and any(e["op"] == "call" and e["fwd"] for e in t["events"])]
